@@ -21,6 +21,37 @@ use std::sync::Arc;
 use vlib::trace::TraceWriter;
 use vlib::{Args, Value};
 
+/// counting allocator: live blocks / bytes of this process (C18: "dropping a C handle releases exactly the object it
+/// wraps (no leak, no double release)" - the same program leaves the same heap behind through either front end)
+pub mod heap {
+    use std::alloc::{GlobalAlloc, Layout, System};
+    use std::sync::atomic::{AtomicI64, Ordering};
+    pub static BLOCKS: AtomicI64 = AtomicI64::new(0);
+    pub static BYTES: AtomicI64 = AtomicI64::new(0);
+    pub struct Counting;
+    unsafe impl GlobalAlloc for Counting {
+        unsafe fn alloc(&self, l: Layout) -> *mut u8 {
+            let p = unsafe { System.alloc(l) };
+            if !p.is_null() {
+                BLOCKS.fetch_add(1, Ordering::Relaxed);
+                BYTES.fetch_add(l.size() as i64, Ordering::Relaxed);
+            }
+            p
+        }
+        unsafe fn dealloc(&self, p: *mut u8, l: Layout) {
+            BLOCKS.fetch_sub(1, Ordering::Relaxed);
+            BYTES.fetch_sub(l.size() as i64, Ordering::Relaxed);
+            unsafe { System.dealloc(p, l) }
+        }
+    }
+    pub fn now() -> (i64, i64) {
+        (BLOCKS.load(Ordering::Relaxed), BYTES.load(Ordering::Relaxed))
+    }
+}
+
+#[global_allocator]
+static ALLOC: heap::Counting = heap::Counting;
+
 fn main() {
     set_log_level(LogLevel::Fatal);
     std::panic::set_hook(Box::new(|_| {}));
@@ -38,6 +69,8 @@ fn main() {
     let mut summary = common::Summary::default();
     let pid = std::process::id();
     for (i, job) in jobs.iter().enumerate() {
+        tw.flush();
+        let before = heap::now();
         let dom = common::Domain::new(&work, &format!("{pid}x{i}"));
         let name = format!("vf/run/{i}");
         let local = job["cfg"]["variant"].as_str() == Some("local") || job["cfg"]["svc"].as_str() == Some("local");
@@ -66,6 +99,10 @@ fn main() {
             other => panic!("unknown pattern {other}"),
         }
         dom.cleanup();
+        drop(dom);
+        tw.flush();
+        let after = heap::now();
+        summary.heap.push((after.0 - before.0, after.1 - before.1));
     }
     tw.flush();
     println!("{}", summary.to_json(tw.lines));
